@@ -8,5 +8,21 @@ package types
 //@ func (ResourceValue).Value
 //@   ensures result == m.Val
 
+// ---- C08: attribute coverage --------------------------------------------------
+// every attribute of a occurs (same key, same value) in b
+//@ spec opaque subsetAttrs(a: []Attribute, b: []Attribute): bool =
+//@        forall i: int :: 0 <= i && i < len(a) ==> (exists j: int :: 0 <= j && j < len(b) && a[i].Key == b[j].Key && a[i].Value == b[j].Value)
+//@ func (Attribute).SubsetOf
+//@   ensures result <==> (m.Key == rhs.Key && m.Value == rhs.Value)
+//@ func AttributesSubsetOf
+//@   ensures result <==> subsetAttrs(a, b)
+//@   loop 1 invariant 0 <= iter && iter <= len(a)
+//@   loop 1 invariant forall i: int :: 0 <= i && i < iter ==> (exists j: int :: 0 <= j && j < len(b) && a[i].Key == b[j].Key && a[i].Value == b[j].Value)
+//@   loop 2 invariant 0 <= iter && iter <= len(b)
+//@   loop 2 invariant forall j: int :: 0 <= j && j < iter ==> !(req.Key == b[j].Key && req.Value == b[j].Value)
+//@ func (Attributes).SubsetOf
+//@   ensures result <==> subsetAttrs(attr, that)
+
+//@ property C08 := (Attribute).SubsetOf#*, AttributesSubsetOf#*, (Attributes).SubsetOf#*
 //@ property C19 := (ResourceValue).Value#*
 //@ property C12 := (ResourceValue).Value#*
